@@ -163,6 +163,9 @@ func BuildSchemaValidationV31(schema *base.Schema, validationString string, fiel
 							continue
 						}
 						node.Tag = "!!float"
+					case "string":
+						// Without a tag, values such as "1", "true" or "" are rendered as a number, a boolean or null
+						node.Tag = "!!str"
 					}
 					schema.Enum = append(schema.Enum, node)
 				}
@@ -182,6 +185,7 @@ func BuildSchemaValidationV31(schema *base.Schema, validationString string, fiel
 					node := &yaml.Node{
 						Kind:  yaml.ScalarNode,
 						Value: v,
+						Tag:   "!!str", // Otherwise "1" or "true" are rendered as a number or a boolean
 					}
 					schema.Enum = append(schema.Enum, node)
 				}
